@@ -49,6 +49,10 @@ def push_sq0(job, ev, ctx):
                            'distinct': r.get('distinct'), 'violated': r['violated'], 'wall_s': r['wall_s']})
     ev['states'] += r.get('distinct', 0)
     ev['transitions'] += r.get('generated', 0)
+    # the same lead from TLC's temporal checking under fairness: SendCompletes (a waiting Send returns or no usable peer is left)
+    rl = api['tlc']('MC_RawSock', 'Raw_live_xpush_sq0.cfg', workers=4, timeout=600)
+    ev['tlc_runs'].append({'module': 'MC_RawSock', 'cfg': 'Raw_live_xpush_sq0.cfg (FairSpec, lead)', 'generated': rl.get('generated'),
+                           'distinct': rl.get('distinct'), 'violated': rl['violated'], 'wall_s': rl['wall_s']})
     outdir = '%s/out/%s-pushsq0' % (api['BUILD'], ctx['pid'])
     shutil.rmtree(outdir, ignore_errors=True)
     d = api['drive']('TestRawPushSQ0', outdir, ctx['tier'], ctx['seed'])
@@ -406,6 +410,9 @@ CHECKS = {
             C('link', 'TestLinkReal', 'TraceLink', env={'VERIF_LINK_PATS': 'pair,pushpull,xpair,xpushxpull'}),
             T('MC_RawSock', 'Raw_xpair.cfg'), T('MC_RawSock', 'Raw_xpair_sq0.cfg'), T('MC_RawSock', 'Raw_xpush.cfg'),
             T('MC_RawSock', 'Raw_xpush_fnp.cfg'), T('MC_RawSock', 'Raw_xpull.cfg'),
+            # liveness under fairness (TLC temporal checking, no state constraint): a waiting Send returns, what was accepted is handed on
+            T('MC_RawSock', 'Raw_live_xpush.cfg', workers=8), T('MC_RawSock', 'Raw_live_xpair_sq0.cfg', workers=8),
+            T('MC_RawSock', 'Raw_live_xpair.cfg', workers=8, tiers=('thorough',)),
             R('xpair', 'xpair'), R('pair', 'xpair'), R('xpair1', 'xpair1'), R('pair1', 'xpair1'),
             R('xpush', 'xpush'), R('push', 'xpush'), R('xpull', 'xpull'), R('pull', 'xpull'),
             {'type': 'custom', 'name': 'pushsq0', 'fn': push_sq0},
@@ -538,7 +545,7 @@ CHECKS = {
               scn=[('MC_HsScn', {'quick': ['HsScn.cfg'], 'thorough': ['HsScn.cfg']})]),
             C('corescn', 'TestCore', 'TraceCore', file='core', n={'quick': 150, 'thorough': 1500},
               scn=[('MC_CoreScn', {'quick': ['CoreScn_as.cfg'], 'thorough': ['CoreScn_as.cfg', 'CoreScn_sy.cfg']})]),
-            T('MC_Core', 'Core_C13.cfg'), T('MC_Core', 'Core_close_fine.cfg', workers=8), T('MC_Req', 'Req_q03.cfg'), T('MC_RepLike', 'Rep_quick.cfg'),
+            T('MC_Core', 'Core_C13.cfg'), T('MC_Core', 'Core_close_fine.cfg', workers=8), T('MC_Core', 'Core_live_listen.cfg', workers=4), T('MC_Core', 'Core_live_dial_async5.cfg', workers=8), T('MC_Req', 'Req_q03.cfg'), T('MC_RepLike', 'Rep_quick.cfg'),
             T('MC_Surveyor', 'Surveyor_quick.cfg'), T('MC_RawSock', 'Raw_xpair.cfg'), T('MC_RawSock', 'Raw_xpush.cfg'),
             T('MC_Lifecycle', 'Lifecycle.cfg', workers=2),
             C('core', 'TestCore', 'TraceCore', n={'quick': 40, 'thorough': 600}, env={'VERIF_MIX': 'close'}),
@@ -576,6 +583,8 @@ CHECKS = {
             T('MC_Core', 'Core_C13.cfg'),
             T('MC_Core', 'Core_C13_full.cfg', tiers=('thorough',)),
             T('MC_Core', 'Core_close_fine.cfg', workers=8),   # socket.Close step by step, interleaved with accepts / dials / hooks (SpecFine)
+            T('MC_Core', 'Core_live_listen.cfg', workers=4),   # liveness under fairness: Attached / Detached reported, id released, Close finishes and releases
+            T('MC_Core', 'Core_live_dial_sync5.cfg', workers=8),
             C('core', 'TestCore', 'TraceCore', n={'quick': 120, 'thorough': 1500}),
             C('errors', 'TestErrorsReal', 'TraceErrors', trivial_len=3),
             C('opts', 'TestOptions', 'TraceOptions', trivial_len=3, vtimeout=3000, env={'VERIF_OPTS_ONLY': 'ep-'}),
@@ -594,6 +603,8 @@ CHECKS = {
             T('MC_Inproc', 'Inproc.cfg'), C('inproc', 'TestInproc', 'TraceInproc'),
             T('MC_Core', 'Core_C14_async.cfg'),
             T('MC_Core', 'Core_C14_sync.cfg'),
+            T('MC_Core', 'Core_live_dial_async5.cfg', workers=8),   # liveness under fairness: a lost connection is redialled unless the dialer is closed
+            T('MC_Core', 'Core_live_dial_sync5.cfg', workers=8),
             T('MC_Core', 'Core_C14_nomax.cfg', tiers=('thorough',)),
             C('core', 'TestCore', 'TraceCore', n={'quick': 100, 'thorough': 1200}, env={'VERIF_CORE_MIX': 'storm'}),
         ],
